@@ -207,7 +207,7 @@ structure St where
   custProto : Bool := false
   custMgw   : Bool := false
   custCT    : Bool := false
-deriving Repr
+deriving Repr, DecidableEq
 
 def dflt (v d : String) : String := if v ≠ "" then v else d
 
